@@ -4,16 +4,17 @@
 #include <sundials/sundials_nvector.h>
 #include <map>
 /* device array = content->data (what N_VGetArrayPointer / the integrator sees), host array kept aside */
-static inline std::map<N_Vector, realtype *> &verif_cuda_host() { static std::map<N_Vector, realtype *> m; return m; }
+inline std::map<N_Vector, realtype *> &verif_cuda_host() { static std::map<N_Vector, realtype *> m; return m; }
 static inline N_Vector N_VNew_Cuda(sunindextype n, SUNContext ctx) {
     N_Vector v = (N_Vector)malloc(sizeof(*v));
     v->content = (struct _verif_NVectorContent *)malloc(sizeof(*v->content));
-    v->content->length = n; v->content->own_data = 1; v->sunctx = ctx;
+    v->content->length = n; v->content->own_data = 1; v->sunctx = ctx; v->content->stream_exec_policy = NULL;
     v->content->data = (realtype *)calloc((size_t)(n > 0 ? n : 1), sizeof(realtype));
     verif_cuda_host()[v] = NULL;
     return v;
 }
-static inline int N_VSetKernelExecPolicy_Cuda(N_Vector, SUNCudaExecPolicy *, SUNCudaExecPolicy *) { return 0; }
+typedef struct _verif_NVectorContent *N_VectorContent_Cuda;
+static inline int N_VSetKernelExecPolicy_Cuda(N_Vector v, SUNCudaExecPolicy *stream_policy, SUNCudaExecPolicy *) { v->content->stream_exec_policy = stream_policy; return 0; }
 static inline void N_VSetHostArrayPointer_Cuda(realtype *h, N_Vector v) { verif_cuda_host()[v] = h; }
 static inline realtype *N_VGetHostArrayPointer_Cuda(N_Vector v) { return verif_cuda_host()[v]; }
 static inline realtype *N_VGetDeviceArrayPointer_Cuda(N_Vector v) { return v->content->data; }
